@@ -28,7 +28,7 @@ def check(run):
     for k in sorted(c.contracts):
         if k.startswith("de:") and "Header" not in k:
             verify.verify(run, c.E, c.contracts[k])
-    for k in ("io:common.MetadataBase.loads.validates",):
+    for k in ("io:common.MetadataBase.loads.validates", "io:common.MetadataBase.load"):
         if k in c.contracts:
             verify.verify(run, c.E, c.contracts[k])
     nobj = 6 if run.tier == "quick" else 60
